@@ -315,7 +315,9 @@ impl MultiState {
             None => return Ok(()),
         };
 
-        if extra_lines.is_some() {
+        // Lines printed through the `MultiProgress` or through one of its bars
+        let printing = extra_lines.is_some() || orphan_visual_line_count > VisualLines::default();
+        if printing {
             // If this draw is due to a `println`, then we need to erase all the zombie lines.
             // This is because `println` is supposed to appear above all other elements in the
             // `MultiProgress`. The zombies reaped by this very draw are still part of the last
@@ -353,7 +355,7 @@ impl MultiState {
 
         // The zombie lines were drawn for the last time, so make `DrawTarget` forget about them
         // so they aren't cleared on next draw.
-        if extra_lines.is_none() {
+        if !printing {
             self.draw_target
                 .adjust_last_line_count(LineAdjust::Keep(adjust));
         }
